@@ -395,6 +395,11 @@ func blockOnListChangeWorker(
 		// list element probably exists and the operation will succeed
 		output = op()
 		if output.data != nil {
+			if _, failed := output.data.(respErrorString); failed {
+				// woken for a push, but the command ends with an error and
+				// took nothing: the wake-up belongs to the next waiter
+				ctx.dsc.ds.passWakeUp(ws)
+			}
 			return
 		}
 
